@@ -220,6 +220,11 @@ def cmp_stats(im, mo, scale=1.0, rtol=1e-8):
     bad, near = [], []
     for k in im:
         a, b = im[k], mo.get(k)
+        # +-n sigma values are undefined when the standard deviation is (numpy: NaN or inf from 0/0 resp. eps/0)
+        if k in ("nf+", "nf-") and im.get("sf") in (None, "err") and mo.get("sf") in (None, "err"):
+            continue
+        if k in ("na+", "na-") and im.get("sa") in (None, "err") and mo.get("sa") in (None, "err"):
+            continue
         if a == "err" or b == "err":
             # an undefined statistic may surface as an exception on one side and NaN on the other only
             # for values numpy computes as NaN; exceptions must agree for curve/peak accessors
